@@ -237,7 +237,8 @@ package segment
 //@   loop 1 invariant len(av(w.offsets)) == old(len(av(w.offsets))) + rangeindex + 1
 //@   loop 1 invariant w.writer.crc == crc(0, w.writer.commitBuf, 0, len(w.writer.commitBuf))
 //@   loop 1 invariant forall j int :: 0 <= j && j <= rangeindex ==> entries[j].Index == w.info.BaseIndex + uint64(old(len(av(w.offsets)))) + uint64(j)
-//@   loop 1 invariant unchanged(old(w.writer.commitBuf), 0, old(len(w.writer.commitBuf))) && unchanged(old(av(w.offsets)), 0, old(len(av(w.offsets))))
+//@   loop 1 invariant unchanged_outside(old(w.writer.commitBuf), old(len(w.writer.commitBuf)), old(cap(w.writer.commitBuf)))
+//@   loop 1 invariant unchanged_outside(old(av(w.offsets)), old(len(av(w.offsets))), old(cap(av(w.offsets))))
 //@   loop 1 decreases len(entries) - rangeindex
 
 //@ func (*Writer).ForceSeal
